@@ -210,6 +210,68 @@ func verifControlReaderGood_MAT1_c(lines []string) []modeling.Mesh {
 	return out
 }
 
+// a repeated usemtl opens no new range, yet the next flush stores (does not add)
+func verifControlReaderBad_MAT1_overwrite(lines []string, mats []*modeling.Material) []modeling.Mesh {
+	var out []modeling.Mesh
+	pending := 0
+	g := verifCtlGroup{}
+	for i, l := range lines {
+		switch l {
+		case "usemtl":
+			if pending > 0 {
+				if len(g.mats) == 0 {
+					g.mats = append(g.mats, modeling.MeshMaterial{PrimitiveCount: pending})
+				} else {
+					g.mats[len(g.mats)-1].PrimitiveCount = pending
+				}
+			}
+			pending = 0
+			if n := len(g.mats); n > 0 && g.mats[n-1].Material == mats[i] {
+				continue
+			}
+			g.mats = append(g.mats, modeling.MeshMaterial{Material: mats[i]})
+		case "f":
+			pending++
+			g.tris = append(g.tris, 0, 1, 2)
+		}
+	}
+	g.closeRange(pending)
+	out = append(out, g.mesh())
+	return out
+}
+
+// accepted: the same merge with accumulating flushes
+func verifControlReaderGood_MAT1_d(lines []string, mats []*modeling.Material) []modeling.Mesh {
+	var out []modeling.Mesh
+	pending := 0
+	g := verifCtlGroup{}
+	for i, l := range lines {
+		switch l {
+		case "usemtl":
+			if pending > 0 {
+				if len(g.mats) == 0 {
+					g.mats = append(g.mats, modeling.MeshMaterial{PrimitiveCount: pending})
+				} else {
+					g.mats[len(g.mats)-1].PrimitiveCount += pending
+				}
+			}
+			pending = 0
+			if n := len(g.mats); n > 0 && g.mats[n-1].Material == mats[i] {
+				continue
+			}
+			g.mats = append(g.mats, modeling.MeshMaterial{Material: mats[i]})
+		case "f":
+			pending++
+			g.tris = append(g.tris, 0, 1, 2)
+		}
+	}
+	if pending > 0 && len(g.mats) > 0 {
+		g.mats[len(g.mats)-1].PrimitiveCount += pending
+	}
+	out = append(out, g.mesh())
+	return out
+}
+
 // a face can be counted without being appended
 func verifControlReaderBad_FACE1(lines []string) []modeling.Mesh {
 	var out []modeling.Mesh
